@@ -217,8 +217,10 @@ class InternalCompiler(Compiler):
         for i in operands:
             qc.cx(i, dest)
 
-        # 4. Perform the MCX between all args
-        qc.mcx(operands, dest)
+        # 4. Perform the MCX between all args (if the operands are the same qubit, the
+        # CX is enough)
+        if len(operands) > 1:
+            qc.mcx(operands, dest)
 
         # 5. Mark ancilla every argument and return
         [qc.mark_ancilla(eret) for eret in erets]
